@@ -5,6 +5,7 @@ package config
 // Contracts checked by /verif (govc). Comment-only: no executable code.
 
 //@ func (*Dcp).GetCouchbaseMetadata
+//@ params c
 //@ props C17
 //@ merge
 //@ requires c != nil
@@ -15,6 +16,7 @@ package config
 //@ modifies nothing
 
 //@ func (*Dcp).GetCouchbaseMembership
+//@ params c
 //@ props C17
 //@ merge
 //@ requires c != nil && logger.Log != nil
@@ -29,6 +31,7 @@ package config
 //@ modifies nothing
 
 //@ func (*Dcp).GetKubernetesLeaderElector
+//@ params c
 //@ props C17
 //@ merge
 //@ requires c != nil && logger.Log != nil
